@@ -461,9 +461,23 @@ func (mp *mergeProcessor) processBlock(
 			return nil
 		}
 
-		err = coreblock.ProcessBlock(ctx, crdt, block, blockLink)
-		if err != nil {
-			return err
+		// A field block can be linked by several composite blocks (the same value written on top
+		// of the same field heads on two nodes is the same block). If it is already part of the
+		// field's DAG it must not be processed again, as it would be added as a head although
+		// later blocks of the field name it as their parent.
+		merged := false
+		if !dagBlock.Delta.IsComposite() && !dagBlock.Delta.IsCollection() {
+			merged, err = mp.isFieldBlockMerged(ctx, crdt, blockLink.Cid, dagBlock.Delta.GetPriority())
+			if err != nil {
+				return err
+			}
+		}
+
+		if !merged {
+			err = coreblock.ProcessBlock(ctx, crdt, block, blockLink)
+			if err != nil {
+				return err
+			}
 		}
 	}
 
@@ -484,6 +498,31 @@ func (mp *mergeProcessor) processBlock(
 	}
 
 	return nil
+}
+
+// isFieldBlockMerged returns true if the given field block is one of the current heads of its
+// field or an ancestor of one of them.
+func (mp *mergeProcessor) isFieldBlockMerged(
+	ctx context.Context,
+	crdt core.ReplicatedData,
+	c cid.Cid,
+	height uint64,
+) (bool, error) {
+	txn := datastore.CtxMustGetTxn(ctx)
+	headset := coreblock.NewHeadSet(txn.Headstore(), crdt.HeadstorePrefix())
+	cids, _, err := headset.List(ctx)
+	if err != nil {
+		return false, err
+	}
+	mt := newMergeTarget()
+	for _, headCid := range cids {
+		block, err := mp.loadBlock(ctx, headCid)
+		if err != nil {
+			return false, err
+		}
+		mt.heads[headCid] = block
+	}
+	return newMergedSet(mp, mt).contains(ctx, c, height)
 }
 
 func decryptBlock(
